@@ -34,7 +34,8 @@ def VB (S W : Prog) (fuel : Nat) : Prop :=
   (∀ ρ w v arms d, evalArms fuel W ρ w v arms d = evalArms fuel S ρ w v arms d) ∧
   (∀ w f args, apply fuel W w f args = apply fuel S w f args)
 
-theorem vA_step {S W : Prog} (himpl : W.impls = S.impls) {n : Nat}
+theorem vA_step {S W : Prog}
+    (himpl : ∀ tr key m, W.impls.find? (fun i => i.1 == tr && i.2.1 == key && i.2.2.1 == m) = S.impls.find? (fun i => i.1 == tr && i.2.1 == key && i.2.2.1 == m)) {n : Nat}
     (ihA : VA S W n) (ihL : VAL S W n) (ihAA : VAA S W n) (ihB : VB S W n) : VA S W (n + 1) := by
   intro σ N hσ ρ w e e' B hcf hsc hB hin hρ hae
   cases e with
@@ -295,7 +296,7 @@ theorem vAA_step {S W : Prog} {n : Nat} (ihA : VA S W n) (ihAA : VAA S W n) : VA
 
 /-- what `validate` establishes, function by function -/
 structure HypV (σs : String → String → String) (Ns : String → List String) (S W : Prog) : Prop where
-  impls : W.impls = S.impls
+  impls : ∀ tr key m, W.impls.find? (fun i => i.1 == tr && i.2.1 == key && i.2.2.1 == m) = S.impls.find? (fun i => i.1 == tr && i.2.1 == key && i.2.2.1 == m)
   fns : ∀ n, (S.findFn n = none ∧ W.findFn n = none) ∨
     ∃ fS fW, S.findFn n = some fS ∧ W.findFn n = some fW ∧ validFn (σs fS.name) (Ns fS.name) fS fW = true
 
@@ -374,15 +375,39 @@ theorem valid_all {σs : String → String → String} {Ns : String → List Str
     exact ⟨vA_step H.impls ihA ihL ihAA ihB, vAL_step ihA ihL, vAA_step ihA ihAA, vB_step H ihA ihB⟩
 
 
+theorem implsAgree_find {A B : List (String × String × String × String)} (h : implsAgree A B = true) (tr key m : String) :
+    A.find? (fun i => i.1 == tr && i.2.1 == key && i.2.2.1 == m) = B.find? (fun i => i.1 == tr && i.2.1 == key && i.2.2.1 == m) := by
+  simp only [implsAgree, List.all_eq_true, List.mem_append, beq_iff_eq] at h
+  have key_eq : ∀ i : String × String × String × String, implPred tr key m i = true →
+      (fun j : String × String × String × String => j.1 == tr && j.2.1 == key && j.2.2.1 == m) = implPred i.1 i.2.1 i.2.2.1 := by
+    intro i hi
+    simp only [implPred, Bool.and_eq_true, beq_iff_eq] at hi
+    funext j
+    simp only [implPred, hi.1.1, hi.1.2, hi.2]
+  cases ha : A.find? (fun i => i.1 == tr && i.2.1 == key && i.2.2.1 == m) with
+  | some i =>
+    have hm := List.mem_of_find?_eq_some ha
+    have hp : implPred tr key m i = true := List.find?_some ha
+    rw [← ha, key_eq i hp]
+    exact h i (Or.inl hm)
+  | none =>
+    cases hb : B.find? (fun i => i.1 == tr && i.2.1 == key && i.2.2.1 == m) with
+    | none => rfl
+    | some j =>
+      have hm := List.mem_of_find?_eq_some hb
+      have hp : implPred tr key m j = true := List.find?_some hb
+      rw [← ha, ← hb, key_eq j hp]
+      exact h j (Or.inr hm)
+
 theorem findFn_name {P : Prog} {n : String} {f : Fn} (h : P.findFn n = some f) : f ∈ P.fns ∧ f.name = n := by
   simp only [Prog.findFn] at h
   exact ⟨List.mem_of_find?_eq_some h, by simpa using List.find?_some h⟩
 
 theorem validate_hyp {σs : String → String → String} {Ns : String → List String} {S W : Prog}
     (h : validate σs Ns S W = true) : HypV σs Ns S W := by
-  simp only [validate, Bool.and_eq_true, List.all_eq_true, beq_iff_eq] at h
+  simp only [validate, Bool.and_eq_true, List.all_eq_true] at h
   obtain ⟨⟨h1, h2⟩, h3⟩ := h
-  refine ⟨h3.symm, ?_⟩
+  refine ⟨implsAgree_find h3, ?_⟩
   intro n
   cases hs : S.findFn n with
   | some fS =>
